@@ -176,6 +176,14 @@ func init() {
 				cfg.N0 = 4
 				cfg.Stores = []string{"inmem", "inmem", "inmem", "inmem"}
 			}
+			if r.Bool(0.3) {
+				// two or three colluding liars need seven to ten validators
+				cfg.N0 = []int{7, 7, 8, 10}[r.Intn(4)]
+				cfg.Stores = make([]string, cfg.N0)
+				for i := range cfg.Stores {
+					cfg.Stores[i] = "inmem"
+				}
+			}
 			cfg.Liars = maxSilent(cfg.N0)
 			cfg.PClock = 0.05
 			cfg.PAdvance = 0.08
